@@ -148,6 +148,7 @@ type dbh struct {
 	maxFile uint32
 	maxCach uint64
 	net     uint32
+	flushIn time.Duration // flush interval of the metadata cache (0 = every commit flushes)
 	f       *faults
 	synced  map[uint32]int64 // per block file: length known to be fsynced
 	tmps    []string
@@ -157,7 +158,7 @@ func (h *dbh) blockPath(n uint32) string { return filepath.Join(h.dir, fmt.Sprin
 
 func (h *dbh) install() {
 	ffldb.VerifSetMaxBlockFileSize(h.db, h.maxFile)
-	ffldb.VerifSetCacheParams(h.db, h.maxCach, 1000*time.Hour)
+	ffldb.VerifSetCacheParams(h.db, h.maxCach, h.flushIn)
 	ffldb.VerifSetFileHooks(h.db, ffldb.VerifFileHooks{
 		Before: func(kind string, n uint32) error { return h.f.hit(kind) },
 		Wrap: func(kind string, n uint32, f ffldb.VerifFile) ffldb.VerifFile {
@@ -493,7 +494,7 @@ func execDbMode(args []string, userOnly bool) (out string) {
 	if err != nil {
 		panic(err)
 	}
-	h := &dbh{dir: filepath.Join(dir, "db"), maxFile: uint32(atoi(args[0])), maxCach: uint64(atoi(args[1])), net: 0xd9b4bef9}
+	h := &dbh{dir: filepath.Join(dir, "db"), maxFile: uint32(atoi(args[0])), maxCach: uint64(atoi(args[1])), net: 0xd9b4bef9, flushIn: 1000 * time.Hour}
 	h.tmps = append(h.tmps, dir)
 	h.f = &faults{count: map[string]int{}, db: h}
 	defer h.cleanup()
@@ -821,6 +822,15 @@ func execDbMode(args []string, userOnly bool) (out string) {
 				parts[i] = strconv.Itoa(id)
 			}
 			o = "[" + strings.Join(parts, "+") + "]"
+		case "fi":
+			// flush interval of the cache: "fi:0" makes every commit take the flush path
+			// (also with an empty cache), "fi:1" restores the interval that never elapses
+			h.flushIn = 1000 * time.Hour
+			if f[1] == "0" {
+				h.flushIn = 0
+			}
+			ffldb.VerifSetCacheParams(h.db, h.maxCach, h.flushIn)
+			o = "ok"
 		case "fl":
 			o = errStr(ffldb.VerifFlushCache(h.db))
 		case "ro":
@@ -868,7 +878,7 @@ func execDbMode(args []string, userOnly bool) (out string) {
 				o = "noimg"
 				break
 			}
-			h2 := &dbh{dir: h.f.imgDir, maxFile: h.maxFile, maxCach: h.maxCach, net: h.net}
+			h2 := &dbh{dir: h.f.imgDir, maxFile: h.maxFile, maxCach: h.maxCach, net: h.net, flushIn: h.flushIn}
 			h2.f = &faults{count: map[string]int{}, db: h2}
 			if err := h2.open(false); err != nil {
 				o = "open-" + errStr(err)
